@@ -72,21 +72,30 @@ def pinned_in(obj):
 
 
 def shrinking_statements(name):
-    """statements of halmos/sevm.py that could remove entries from the module-level container"""
-    sf = loader.module_file("halmos.sevm")
+    """statements anywhere in the halmos package that could remove entries from the module-level container of halmos.sevm (the
+    container can be imported or reached as `sevm.<name>` from any module)"""
+    import glob
+    import os
+
     bad = []
-    for n in ast.walk(sf.tree):
-        src = None
-        if isinstance(n, ast.Delete) and any(name in ast.unparse(t) for t in n.targets):
-            src = ast.unparse(n)
-        elif isinstance(n, ast.Call) and isinstance(n.func, ast.Attribute) and isinstance(n.func.value, ast.Name) and n.func.value.id == name and n.func.attr in ("pop", "popitem", "clear", "remove", "discard"):
-            src = ast.unparse(n)
-        elif isinstance(n, (ast.Assign, ast.AugAssign)):
-            tg = n.targets if isinstance(n, ast.Assign) else [n.target]
-            if any(isinstance(t, ast.Name) and t.id == name for t in tg) and getattr(n, "col_offset", 0) > 0:
+    for path in sorted(glob.glob(os.path.join(loader.PKG_DIR, "**", "*.py"), recursive=True)):
+        mod = os.path.relpath(path, loader.PKG_DIR)
+        try:
+            tree = ast.parse(open(path).read())
+        except SyntaxError:
+            continue
+        for n in ast.walk(tree):
+            src = None
+            if isinstance(n, ast.Delete) and any(name in ast.unparse(t) for t in n.targets):
                 src = ast.unparse(n)
-        if src:
-            bad.append(src)
+            elif isinstance(n, ast.Call) and isinstance(n.func, ast.Attribute) and ast.unparse(n.func.value).split(".")[-1] == name and n.func.attr in ("pop", "popitem", "clear", "remove", "discard"):
+                src = ast.unparse(n)
+            elif isinstance(n, (ast.Assign, ast.AugAssign)):
+                tg = n.targets if isinstance(n, ast.Assign) else [n.target]
+                if any(ast.unparse(t).split(".")[-1] == name and isinstance(t, (ast.Name, ast.Attribute)) for t in tg) and getattr(n, "col_offset", 0) > 0:
+                    src = ast.unparse(n)
+            if src:
+                bad.append(f"{mod}: {src}")
     return bad
 
 
